@@ -1,10 +1,10 @@
-import NeumannModel.Rel.Extend
+import NeumannModel.Rel.VecLemmas
 /-
   C04 — property theorems: every execution strategy returns exactly the rows that satisfy the condition,
   in every reachable table state.  ONLY property statements and their non-vacuity examples live here;
   helpers are in `Lemmas.lean` (strategies on a state with the index invariant), `Preserve.lean`
-  (every operation preserves the invariant) and `Extend.lean` (UPDATE image, aggregates, derived strategies,
-  depth limit).
+  (every operation preserves the invariant), `Extend.lean` (UPDATE image, aggregates, derived strategies,
+  depth limit) and `VecLemmas.lean` (typing invariant, word level of the vectorised filter).
 -/
 namespace Neumann.Rel.Props
 open Neumann.Rel
@@ -92,6 +92,36 @@ theorem create_drop_index_transparent (schema : List (ColType × Bool)) (ops : L
   · rw [count_eq t' hi' q, count_eq t hi q, hspec]
   · rw [columnarSelect_eq t' hi' q, columnarSelect_eq t hi q, hspec]
   · intro l o; rw [selectLimit_eq t' hi' q, selectLimit_eq t hi q, hspec]
+
+/-- **indexes never change results, over whole histories**: take any operation sequence and the same
+    sequence with every index creation / drop removed (an engine that never had an index).  Both end with the
+    same slab and schema, hence every strategy on the indexed state -- hash lookup, B-tree range, limit/offset,
+    count, cursor, columnar -- returns exactly what the full scan of the never-indexed state returns -/
+theorem indexes_never_change_results (schema : List (ColType × Bool)) (ops : List Op) (c : Cond) :
+    let t := run schema ops
+    let u := run schema (ops.filter (fun o => !o.isIndexOp))
+    t.rows = u.rows ∧ t.schema = u.schema ∧
+    select t c = scanSelect u c ∧ count t c = (scanSelect u c).length ∧ columnarSelect t c = scanSelect u c ∧
+    (∀ l o, selectLimit t c l o = ((scanSelect u c).drop o).take l) ∧
+    (∀ b, 0 < b → cursorSelect t c b = scanSelect u c) ∧
+    selectRows t c = specRows u c := by
+  intro t u
+  have hi : IdxInv t := run_inv schema ops
+  have hu : IdxInv u := run_inv schema _
+  obtain ⟨hr, hs⟩ := run_rows_strip ops (Table.empty schema) (Table.empty schema) rfl rfl
+  have hspec : spec t c = spec u c := by unfold spec; rw [show t.rows = u.rows from hr]
+  have hscan : scanSelect u c = spec t c := by rw [scanSelect_eq_spec u c hu.1, hspec]
+  refine ⟨hr, hs, ?_, ?_, ?_, ?_, ?_, ?_⟩
+  · rw [hscan, select_eq_spec t hi c]
+  · rw [hscan, count_eq t hi c]
+  · rw [hscan, columnarSelect_eq t hi c]
+  · intro l o; rw [hscan, selectLimit_eq t hi c]
+  · intro b hb; rw [hscan, cursorSelect_eq t hi c b hb]
+  · rw [selectRows_eq_specRows t hi c]; unfold specRows; rw [show t.rows = u.rows from hr]
+
+example : (demoOps.filter (fun o => !o.isIndexOp)).length = 6 := by decide
+example : select (run demoSchema demoOps) (.rng .lt (.col 1) (.int 6)) =
+    scanSelect (run demoSchema (demoOps.filter (fun o => !o.isIndexOp))) (.rng .lt (.col 1) (.int 6)) := by decide
 
 /-- DELETE with a condition removes exactly the rows for which the condition is true (every other slot is
     untouched), reports their number, and leaves a state in which all strategies agree again -/
@@ -254,6 +284,38 @@ theorem depth_limit_outcome_strategy_dependent_witness :
       columnarE 0 (run [(.int, false)] ops) c = .ok (spec (run [(.int, false)] ops) c) ∧
       spec (run [(.int, false)] ops) c = [1] :=
   ⟨[.insert [.int 1]], .and (.eq (.col 0) (.int 1)) (.rng .ge (.col 0) (.int 0)), by decide, by decide, by decide⟩
+
+/-- every stored value is NULL or of its column's type, in every reachable state (insert / batch_insert /
+    update validate; delete and index DDL do not touch values) -/
+theorem stored_values_well_typed (schema : List (ColType × Bool)) (ops : List Op) :
+    ∀ r ∈ (run schema ops).rows, ∀ (j : Nat) (ty : ColType) (nl : Bool) (v : Value),
+      (run schema ops).schema[j]? = some (ty, nl) → r.vals[j]? = some v → typeOk ty v = true :=
+  run_typed schema ops
+
+example : typeOk .float (.float 0) = true ∧ typeOk .float (.int 0) = false := by decide
+
+/-- the SIMD filter loop (`len / 4` chunks of four lanes, then the remainder, each hit doing
+    `result[i / 64] |= 1 << (i % 64)` on a zeroed `bitmap_words(len)` vector) sets exactly the bits of the
+    positions below `len` whose value satisfies the comparison -/
+theorem simd_filter_sets_exactly_matching_bits (n : Nat) (pred : Nat → Bool) (p : Nat) :
+    (simdFilter n pred).bit p = (decide (p < n) && pred p) ∧ (simdFilter n pred).nwords = (n + 63) / 64 :=
+  simdFilter_bit n pred p
+
+example : (simdFilter 7 (fun i => i % 2 = 1)).selected = [1, 3, 5] := by decide
+
+/-- **the vectorised path at word level**: in every reachable state and for every condition tree, the
+    word-level execution -- value vector, 64-bit words of the result / null / alive bitmaps, `apply_null_mask`,
+    `apply_alive_mask`, word-wise `bitmap_and` / `bitmap_or` over the common prefix, `selected_indices`, then
+    `get_rows_by_indices` with its bounds and alive checks -- returns exactly the rows for which the condition
+    is true, whatever the unspecified storage holds: the stored word of a NULL slot (0, or the value before an
+    update to NULL) and the padding bits of the last word of the raw alive / null bit vectors -/
+theorem vectorised_words_agree (schema : List (ColType × Bool)) (ops : List Op) (u : Unspec) (c : Cond) :
+    columnarSelectW (run schema ops) u c = spec (run schema ops) c := by
+  rw [columnarSelectW_eq _ (run_typed schema ops) u c, columnarSelect_eq _ (run_inv schema ops) c]
+
+example : columnarSelectW (run demoSchema demoOps) Unspec.ones (.rng .lt (.col 1) (.int 6)) = [2, 4] := by decide
+example : (vecFilterW (run demoSchema demoOps) Unspec.ones (.ne (.col 1) (.int 5))).isSome = true := by decide
+example : columnarSelectW (run demoSchema demoOps) Unspec.ones (.ne (.col 1) (.int 5)) = [1, 4] := by decide
 
 /-- the defect found on the real engine (`select_with_limit` truncated the raw index ids before the re-check):
     with that variant an index changes the answer -/
